@@ -198,3 +198,57 @@ def check_c12_resolved(truth, assignments, ovres):
             if got != want:
                 return False, "override %s resolved to %s, expected %s under %s" % (t["name"], got, want, a)
     return True, ""
+
+
+def not_compiled(r):
+    o = r.get("obs")
+    return isinstance(o, dict) and o.get("obs", 1) is None
+
+
+PERMITTED_REJECTIONS = ("does not match WGSL", "derive(Pod) was applied to a type with padding", "E0080")
+
+
+def check_c05(truth, opts, r):
+    """C05, end to end: the module was compiled by rustc with the assertions in it; every host-shareable struct must
+    have exactly the WGSL offsets and size (rustc's offset_of / size_of, observed at run time)."""
+    o = r["obs"]
+    if not opts.get("bm_host"):
+        return True, "assertions not requested"
+    for t in truth:
+        if not t["host"] or t["rts"]:
+            continue
+        st = (o.get("structs") or {}).get(t["name"])
+        if st is None:
+            return False, "host-shareable struct %s missing from the compiled module" % t["name"]
+        offs = {f["name"]: f["offset"] for f in st["fields"]}
+        for mn, off in t["offsets"]:
+            if offs.get(mn) != off:
+                return False, "module compiled although %s.%s sits at Rust offset %s, WGSL offset %d" % (t["name"], mn, offs.get(mn), off)
+        if st["size"] != t["size"]:
+            return False, "module compiled although size_of::<%s>() = %d, WGSL size %d" % (t["name"], st["size"], t["size"])
+    return True, ""
+
+
+def expected_impls(o, host, rts):
+    pod = bool((o.get("bm_host") and host) or (o.get("bm_vertex") and not host))
+    return {"Copy": not rts, "Clone": True, "Debug": True, "PartialEq": True, "Pod": pod, "Zeroable": pod,
+            "ShaderType": bool(o.get("encase") and host), "Serialize": bool(o.get("serde")), "Deserialize": bool(o.get("serde"))}
+
+
+def check_c09(truth, opts, r):
+    """C09, behaviourally: which traits rustc finds implemented for every emitted struct of the compiled module"""
+    o = r["obs"]
+    structs = o.get("structs") or {}
+    for t in truth:
+        st = structs.get(t["name"])
+        if st is None:
+            return False, "struct %s missing from the compiled module" % t["name"]
+        want = expected_impls(opts, t["host"], t["rts"])
+        got = {k: bool(v) for k, v in (st.get("impls") or {}).items() if k in want}
+        if got != want:
+            diff = {k: (got.get(k), want[k]) for k in want if got.get(k) != want[k]}
+            return False, "%s: trait impls (observed, expected) differ: %s" % (t["name"], diff)
+    extra = [n for n in structs if n not in {t["name"] for t in truth}]
+    if extra:
+        return False, "structs emitted that the host does not fill: %s" % extra
+    return True, ""
